@@ -160,7 +160,11 @@ func (p *Plot) Add(r *vegeta.Result) error {
 func (p *Plot) Close() {
 	for _, as := range p.series {
 		for _, ts := range as.series {
-			ts.data.Finish()
+			// A series whose points are all still buffered, waiting for an
+			// earlier sequence number, has no data yet.
+			if ts.data != nil {
+				ts.data.Finish()
+			}
 		}
 	}
 }
